@@ -96,6 +96,12 @@ ClipOne(x, lo, hi) ==
     ELSE x
 DefClip(s, lo, hi) == [i \in 1..Len(s) |-> ClipOne(s[i], lo, hi)]
 DefAbs(s) == [i \in 1..Len(s) |-> IF s[i] = NULL THEN NULL ELSE Abs(s[i])]
+\* drop_none: the valid elements, in order (the one mapping operation that changes the length)
+DefDropNone(s) == Sel(s)
+DropNoneLaws(s) ==
+    /\ Len(DefDropNone(s)) = N(Sel(s)) /\ \A i \in 1..Len(DefDropNone(s)) : DefDropNone(s)[i] # NULL
+    /\ DefDropNone(DefDropNone(s)) = DefDropNone(s)
+    /\ DefDropNone(DefFill(s, 7, IsNull)) = DefFill(s, 7, IsNull)           \* nothing to drop after a fill
 
 (* ---- laws ------------------------------------------------------------------------ *)
 
